@@ -197,11 +197,14 @@ func sameFields(g *ssh.Certificate, r *cr.Cert) string {
 	return ""
 }
 
+var vfStart = time.Now()
+
 func run(c *vf.Ctx) {
 	c.Rule("A: type{1,2,0,3} x principals{none,match,other,other+match,''} x (after,before) in {0,now-1,now,now+1,2^63-1,2^63,2^64-1}^2 x critical{none,supported,unsupported,source-address,supported+unsupported} x extensions{none,flag,valued+flag} " +
 		"x CA{trusted,unknown} x signature{good,bad} x revocation{nil,false,true} x {CheckCert,Authenticate,CheckHostKey} at clock now for key pairings {ed25519/ed25519 CA, rsa/ecdsa CA} (thorough: also clocks 1 and 2^40 and ecdsa/rsa CA), plus side grids (clock nil/0/1, nil authority callbacks, plain keys, 5 signature faults, nonce lengths); " +
 		"B: SignCert with CA{ed25519,rsa default,rsa [rsa-sha2-256],[ssh-rsa],p256,p384,p521, 5 value-class CAs} x subject{rsa,p256,p384,p521,ed25519,sk-ecdsa,sk-ed25519, 13 value classes: point coordinates one/two bytes short, ed25519 public key starting 00/0000, 1039-bit rsa} x 4 field shapes byte-for-byte against the reference encoder, ssh-keygen -s certificates; " +
 		"C: every non-canonical re-encoding kind x position of 6 valid base certificates x {signature kept, re-signed} x 3 entry points; D: certificate as CA; " +
+		"H (hardening): every evalCert parses a private copy (bytes untouched) and after all decisions the certificate object must marshal as before; one CertChecker per revocation setting decides 144 certificates with identical serial/key id/nonce (type x principal x window x critical x CA x signature) forwards and backwards through the 3 entry points (both key pairings); SignCert on a struct signed before (3 CAs x 3 CAs x 5 subjects x 4 field shapes, struct fresh or from ParsePublicKey) = reference certificate of the new fields; field sizes 255/256/257/65535/65536/65537 [thorough 2^20+-1] for principal count (match first/last/none), key id, extension value, critical option value/name, nonce, reserved, principal name x user/host; security-key CAs (sk-ed25519, sk-ecdsa) x flags {01,05,00,04} x user/host x {intact, changed after signing}: decided when user presence is asserted or the certificate is invalid, and afterwards the CA key object inside the certificate must still refuse a signature without user presence; " +
 		"non-trivial = distinct (part, entry point, reference reason or acceptance, boundary classes / re-encoding kind); oracle = reference certificate model (PROTOCOL.certkeys) verifying the CA signature over the received bytes")
 	c.Assume("standard library signature primitives are correct; the reference decision uses unsigned 64-bit time comparison as PROTOCOL.certkeys / OpenSSH do (confirmed with ssh-keygen -Y verify for valid-before 2^63 and 2^64-2)")
 	c.Assume("security-key CAs are not covered: CheckCert deliberately never enforces user presence on the CA signature (OpenSSH behaviour)")
@@ -219,6 +222,11 @@ func run(c *vf.Ctx) {
 	partB(e, seed)
 	partC(e, seed)
 	partD(e)
+	tH := time.Now()
+	c.Set("seconds_before_part_H", time.Since(vfStart).Seconds())
+	defer func() { c.Set("seconds_part_H", time.Since(tH).Seconds()) }()
+	partH(e, seed)
+	hardenCheckerSequences(&env{c: c, name: "rsa subject, ecdsa-p256 CA", ca: ecSK(elliptic.P256(), seed+"CA"), ca2: ecSK(elliptic.P256(), seed+"CA2"), subj: rsaSK(1024, seed+"subject")})
 }
 
 // ---- part A: decision grid --------------------------------------------------------------
@@ -276,8 +284,13 @@ func rejectClass(entry string, ct *cr.Cert) string {
 
 func (e *env) evalCert(part string, ct *cr.Cert, b []byte, now uint64, useClock bool, revs []int, ntKey string, canonical bool) {
 	c := e.c
-	key, err := ssh.ParsePublicKey(b)
+	in := append([]byte(nil), b...) // hardening: the parser gets a private copy and must leave it untouched
+	key, err := ssh.ParsePublicKey(in)
 	c.Eval(1)
+	if !bytes.Equal(in, b) {
+		c.Violation(part+": ParsePublicKey modifies the bytes it was given", map[string]any{"cert": fmt.Sprintf("%x", b)})
+		return
+	}
 	if err != nil {
 		c.Violation(part+": ParsePublicKey rejects a well-formed certificate", map[string]any{"cert": fmt.Sprintf("%x", b), "err": err.Error()})
 		return
@@ -297,6 +310,13 @@ func (e *env) evalCert(part string, ct *cr.Cert, b []byte, now uint64, useClock 
 	}
 	tbs := ct.TBS()
 	sigV, sigWhy := cr.VerifySignature(ct, tbs, false)
+	m0 := gc.Marshal()
+	// hardening: no decision may change the certificate object (or the bytes it aliases)
+	defer func() {
+		if !bytes.Equal(gc.Marshal(), m0) || !bytes.Equal(in, b) {
+			c.Violation("CertChecker modifies the certificate it checks", map[string]any{"part": part, "cert": fmt.Sprintf("%x", b)})
+		}
+	}()
 	for _, rv := range revs {
 		ch := e.checker(int64(now), useClock, rv, supportedOpts)
 		for en := range entries {
